@@ -311,3 +311,36 @@ Proof.
       rewrite ?andb_true_r, ?andb_false_r in I; simpl in I; try discriminate;
       destruct (negb _) in I; discriminate.
 Qed.
+
+(** * what a call raises, what it starts *)
+Lemma run_raises_spec c parent command k fails :
+  (match o_exc (run_model c parent command k) with
+   | Some EType => Some XType
+   | Some EValue => Some XValue
+   | Some _ => Some XBoom
+   | None =>
+       match o_started (run_model c parent command k), o_kind (run_model c parent command k),
+             o_res (run_model c parent command k) with
+       | Some _, RResult, Some r =>
+           if fails && negb (truthy (r_opts r Warn)) then Some XUnexpected else None
+       | _, _, _ => None
+       end
+   end) = expected_raise c k fails.
+Proof.
+  unfold expected_raise, run_model. rewrite unify_spec.
+  destruct (rejected c k) as [e|]; [destruct e; reflexivity|].
+  rewrite !r_opts_resolved.
+  destruct (truthy (want c k Dry)); cbn [o_exc o_started o_kind o_res].
+  - destruct fails; reflexivity.
+  - rewrite r_opts_resolved.
+    destruct (truthy (want c k Disown)), (truthy (want c k Asynchronous)), fails,
+      (truthy (want c k Warn)); reflexivity.
+Qed.
+
+Lemma call_ok_model c parent command k :
+  call_ok c parent command k (o_started (run_model c parent command k)) = true.
+Proof.
+  unfold call_ok. destruct (rejected c k) as [e|] eqn:R.
+  - destruct (rejected_before_start c parent command k e R) as (_ & S & _). rewrite S. reflexivity.
+  - apply started_ok. exact R.
+Qed.
